@@ -6,7 +6,7 @@
     namely [ext s]) and every assignment satisfying [new] gives the output
     variables the stated values. *)
 From Coq Require Import ZArith List Bool Lia.
-From SP Require Import Base.Sat Base.Bits Core.CnfModel Core.CnfProofs.
+From SP Require Import Base.Sat Base.Bits Core.CnfModel Core.CnfProofs Core.PopCountProofs.
 Import ListNotations.
 Open Scope Z_scope.
 
@@ -65,6 +65,60 @@ Theorem C12_ripple_carry : forall n xs ys,
 Proof. exact ripple_carry_correct. Qed.
 Print Assumptions C12_ripple_carry.
 
+(** Saturating ripple adder on MSB-first operands of equal width
+    [0 < w <= sat_at].  For [w < sat_at] the result has [w+1] bits and is the
+    exact sum; for [w = sat_at] it has [w] bits: the low [w-1] bits are the sum
+    of the low parts modulo [2^(w-1)], the top bit is the disjunction of the
+    two top bits and the carry out of the low parts. *)
+Theorem C12_ripple_saturate : forall n xs ys sa,
+  0 <= n -> length xs = length ys -> (0 < length xs <= sa)%nat ->
+  Forall (inr n) xs -> Forall (inr n) ys ->
+  exists out n' new ext,
+    (forall cs, ripple_saturate xs ys sa {| next := n; cls := cs |}
+                = (Some out, {| next := n'; cls := cs ++ new |})) /\
+    Defines n n' new ext /\
+    Forall (fresh_in n n') out /\
+    if (length xs <? sa)%nat then
+      length out = S (length xs) /\
+      forall s, sat s new = true ->
+        msbv (lits s out) = msbv (lits s xs) + msbv (lits s ys)
+    else
+      length out = length xs /\
+      forall s, sat s new = true ->
+        let low := msbv (lits s (tl xs)) + msbv (lits s (tl ys)) in
+        let M := 2 ^ (Z.of_nat (length xs) - 1) in
+        msbv (lits s (tl out)) = low mod M /\
+        lit_true s (hd 0 out)
+        = lit_true s (hd 0 xs) || lit_true s (hd 0 ys) || (M <=? low).
+Proof. exact ripple_saturate_correct. Qed.
+Print Assumptions C12_ripple_saturate.
+
+(** Population count of a non-empty list of literals (duplicates and negative
+    literals allowed; [count] is positional).  With [p = clog2 (length vs)]
+    (= ceil(log2 |vs|), the model's [log2_up_nat |vs| |vs| 0]) the result,
+    MSB first, has width [wd sa p] (= p+1 for sa = 0, min(p+1, sa) otherwise)
+    and value [satv sa N]: exactly [N] when the width is below [sa] (or
+    sa = 0); at width [sa] the low [sa-1] bits are [N mod 2^(sa-1)] and the top
+    bit says whether [N >= 2^(sa-1)]. *)
+Theorem C12_pop_count : forall n vs sa,
+  0 <= n -> vs <> [] -> Forall (inr n) vs ->
+  exists out n' new ext,
+    (forall cs, pop_count vs sa {| next := n; cls := cs |}
+                = (Some out, {| next := n'; cls := cs ++ new |})) /\
+    Defines n n' new ext /\
+    let p := clog2 (length vs) in
+    (length vs <= 2 ^ p /\ (p = 0 \/ 2 ^ (p - 1) < length vs))%nat /\
+    length out = wd sa p /\ Forall (inr n') out /\
+    forall s, sat s new = true ->
+      let N := count s vs in
+      msbv (lits s out) = satv sa N /\
+      ((sa = 0 \/ length out < sa)%nat -> msbv (lits s out) = N) /\
+      (length out = sa ->
+         msbv (lits s (tl out)) = N mod 2 ^ (Z.of_nat sa - 1) /\
+         lit_true s (hd 0 out) = (2 ^ (Z.of_nat sa - 1) <=? N)).
+Proof. exact pop_count_correct. Qed.
+Print Assumptions C12_pop_count.
+
 (** The hypotheses are satisfiable: a 3-bit addition of mixed-sign literals
     over 6 variables. *)
 Example C12_ripple_carry_instance :
@@ -84,4 +138,13 @@ Example C12_gate_instance :
 Proof.
   split; [lia|]. split; [unfold inr; lia|]. split; [unfold inr; lia|].
   split; [cbn; unfold inr; lia|]. reflexivity.
+Qed.
+
+Example C12_pop_count_instance :
+  0 <= 5 /\ [1; -2; 3; 3; 5] <> [] /\ Forall (inr 5) [1; -2; 3; 3; 5] /\
+  fst (pop_count [1; -2; 3; 3; 5] 3 {| next := 5; cls := [] |}) = Some [29; 28; 26] /\
+  fst (ripple_saturate [1; 2] [-3; 4] 2 {| next := 4; cls := [] |}) = Some [7; 6].
+Proof.
+  split; [lia|]. split; [discriminate|].
+  split; [repeat constructor; unfold inr; lia|]. vm_compute. split; reflexivity.
 Qed.
